@@ -37,8 +37,8 @@ def run_seed(sid, mode):
         for c in checks:
             env = dict(os.environ, XGCM_SRC=scratch, VERIF_SKIP_MC="1")
             q = subprocess.run([os.path.join(ROOT, "check"), c, "--tier", "quick"], capture_output=True, text=True, env=env, cwd=ROOT)
-            keys = re.findall(r"key=(\S+)", q.stdout)
-            res[c] = {"exit": q.returncode, "violation_keys": keys[:6]}
+            keys = [f"{k} ({n})" for k, n in re.findall(r"key=(\S+) cases=(\d+)", q.stdout)]
+            res[c] = {"exit": q.returncode, "violation_keys": keys[:6], "cases": sum(int(n) for n in re.findall(r"cases=(\d+)", q.stdout))}
         return sid, res
     finally:
         shutil.rmtree(scratch, ignore_errors=True)
@@ -67,8 +67,10 @@ def main():
                 meta["machinery_failures"] = sorted(c for c, r in res.items() if r["exit"] not in (0, 1))
                 meta["checked_at_repo_commit"] = head
                 meta["violation_keys"] = {c: r["violation_keys"] for c, r in res.items() if r["exit"] == 1}
+                meta["rejected_cases"] = {c: r["cases"] for c, r in res.items() if r["exit"] == 1}
                 meta.pop("matrix_error", None)
-                print(sid, "caught by", meta["caught_by"], "missed by", meta["missed_by"], "machinery", meta["machinery_failures"])
+                print(sid, "caught by", meta["caught_by"], "missed by", meta["missed_by"], "machinery", meta["machinery_failures"],
+                      "cases", meta["rejected_cases"])
             json.dump(meta, open(mp, "w"), indent=1)
 
 
